@@ -71,14 +71,23 @@ func runC13(c *Ctx, r *Report) {
 			}
 			guardedAccesses++
 			held := false
+			onlyShared := false
 			for _, lk := range locks {
 				if a.held[lk] {
+					if strings.HasSuffix(lk, "#R") && a.write {
+						onlyShared = true // a write under a read lock is not guarded
+						continue
+					}
 					held = true
 				}
 			}
 			kind := "read"
 			if a.write {
 				kind = "write"
+			}
+			if !held && onlyShared {
+				r.bad(fmt.Sprintf("%s:%s of %s.%s", relName(a.fn), kind, k.typ, k.field), a.in.Pos(), a.fn, "writes hold the exclusive lock", "the field is written while only the READ lock is held: concurrent writers / readers are admitted")
+				continue
 			}
 			r.check(held, fmt.Sprintf("%s:%s of %s.%s", relName(a.fn), kind, k.typ, k.field), a.in.Pos(), a.fn,
 				fmt.Sprintf("%s of %s.%s holds %s", kind, k.typ, k.field, strings.Join(locks, "|")),
@@ -128,6 +137,7 @@ func runC13(c *Ctx, r *Report) {
 	c13r7(c, r)
 	c13r8(c, r)
 	c13r9(c, r)
+	c01r3(c, r) // a cached list narrower than the query's true result is a wrong result of the search
 	c13r8(c, r)
 	c06r6(c, r) // items never change after they have been read
 	c06r1(c, r) // items never change after they have been read
